@@ -57,7 +57,7 @@ func hsNegotiated(h string) bool {
 func hsComplete(h string) bool {
 	switch h {
 	case "wrong_line", "line_nonrequest", "no_versions", "bad_versions", "line_garbage_frame",
-		"request_wrong_code", "open_with_request", "request_no_code", "code_without_request", "old_versions":
+		"request_wrong_code", "open_with_request", "request_no_code", "code_without_request", "old_versions", "near_line":
 		return true
 	}
 	return false
@@ -65,7 +65,7 @@ func hsComplete(h string) bool {
 
 var hostileHandshakes = []string{"valid", "valid", "valid", "split", "unknown_comp", "extra_versions",
 	"wrong_line", "wrong_line2", "partial_line", "no_line", "line_garbage_frame", "line_nonrequest", "no_versions", "bad_versions", "silent", "line_only",
-	"request_wrong_code", "open_with_request", "request_no_code", "code_without_request", "old_versions", "old_versions"}
+	"request_wrong_code", "open_with_request", "request_no_code", "code_without_request", "old_versions", "old_versions", "near_line", "near_line"}
 
 var hostileSteps = []string{"open", "open", "open_data", "data", "close", "window", "batch_open_close", "nested_batch", "dup_open",
 	"unknown_data", "unknown_window", "unknown_close", "garbage_frame", "truncated_frame", "huge_len", "bitflip_open", "window_neg", "window_huge",
@@ -198,6 +198,10 @@ func (h *hostileRun) handshakeBytes(p HostilePeer) []byte {
 		return append(line, req(in)...)
 	case "wrong_line":
 		return append([]byte("GET / HTTP/1.1\n"), valid...)
+	case "near_line":
+		// first lines that begin like the protocol line and are not it
+		lines := []string{"SpecMPX/10\n", "SpecMPX/1x\n", "SpecMPX/1\r\n", "SpecMPX/1 GET / HTTP/1.1\n", "SpecMPX/1.0\n", " SpecMPX/1\n", "SpecMPX/1\x00\n"}
+		return append([]byte(lines[(p.StartUs+len(p.Steps))%len(lines)]), valid...)
 	case "wrong_line2":
 		return append([]byte("SpecMPX/2\n"), valid...)
 	case "partial_line":
